@@ -15,7 +15,7 @@ func init() { Registry["C15"] = C15 }
 // read-write twin on an identically populated storage for the "reads keep working" half.
 func C15(r *ck.Run) {
 	r.Rule("every endpoint shape of the S3 API table × caller role (root, admin, userplus, owner, policy grantee, ACL grantee) × storage configuration on a gateway started with the read-only switch; mutating endpoints must be refused with the storage byte-identical, non-mutating ones must answer like the read-write twin; distinct = (config, endpoint, caller, path form)")
-	r.Assume("admin API calls (PATCH /create-user ...) are not S3 API requests and are excluded; a non-mutating request is compared by status, error code and (GetObject) body")
+	r.Assume("account management through the admin API (PATCH /create-user ...) does not touch what is stored for buckets and is excluded; change-bucket-owner, which is served on the same listener and rewrites a bucket's ACL, is included; a non-mutating request is compared by status, error code and (GetObject) body")
 	cfgs := []gw.Opts{{}, {Versioning: true}}
 	if r.Thorough() {
 		cfgs = append(cfgs, gw.Opts{Sidecar: true}, gw.Opts{NoTmpFile: true, Versioning: true})
@@ -68,7 +68,7 @@ func C15(r *ck.Run) {
 			base := ro.F.G.Snapshot(gw.SnapOpts{})
 			for ei := range eps {
 				ep := &eps[ei]
-				if ep.Level == "admin" || !ep.Applicable(ro) {
+				if (ep.Level == "admin" && ep.ID != "AdminChangeBucketOwner") || !ep.Applicable(ro) {
 					continue
 				}
 				for _, c := range callers {
